@@ -220,7 +220,7 @@ func resolveCfgs(cfgs map[string]*Cfg, scDir string) map[string]*Cfg {
 	for k, c := range cfgs {
 		cc := *c
 		if c.Dir != nil && strings.HasPrefix(*c.Dir, "@") {
-			d := filepath.Join(scDir, strings.TrimPrefix(*c.Dir, "@"))
+			d := scDir + strings.TrimPrefix(*c.Dir, "@") // verbatim: the option may deliberately not be in cleaned form
 			cc.Dir = &d
 		}
 		out[k] = &cc
